@@ -142,20 +142,42 @@ XT_QUICK = [((0x00, 0x00), (2, (-1,), (0, 0))),      # two try ranges share one 
 XT_THOROUGH = [((0x00, 0x00), (2, (1, 0), (0, 1))), ((0x00, 0x00, 0x00), (2, (-2,), (0, 0))), ((0x32, 0x00), (3, (2, 0), (1, 0, 1)))]
 
 
+# scenarios with concrete address labels: (opcodes, ("concrete", lengths, {k: determineNext result}))
+# a switch at instruction #2 whose cases go back to instruction #1 and to an address that is no instruction start
+# (inside instruction #0 / before offset 0): the genuine target must still begin a block
+CONCRETE_SCEN = [((0x00, 0x00, 0x2B, 0x00), ("concrete", (2, 2, 6, 2), {2: [10, 1, 2]})),
+                 ((0x00, 0x00, 0x2B, 0x00), ("concrete", (2, 2, 6, 2), {2: [10, -4, 2]})),
+                 ((0x00, 0x32, 0x00), ("concrete", (2, 4, 2), {1: [6, 0]}))]
+
+
 def check_partition(sink, repo, folder, ma_cls, dn, de, basic, scen):
     cbb = ma_cls.lookup("_create_basic_block")
     pending = None
+    undecided = None
     n_failed = 0
     for entry in scen:
         ops, xt = entry if (len(entry) == 2 and isinstance(entry[0], tuple)) else (entry, None)
-        paths = [p for p in fm.run_block_model(repo, folder, ma_cls, dn, de, basic, ops, exc_table=xt,
-                                                   max_paths=6000 if xt is None else 2500) if p.entered]
+        conc = None
+        if xt is not None and xt[0] == "concrete":
+            conc, xt = (xt[1], xt[2]), None
+        try:
+            paths = [p for p in fm.run_block_model(repo, folder, ma_cls, dn, de, basic, ops, exc_table=xt, concrete=conc,
+                                                       max_paths=6000 if xt is None else 2500) if p.entered]
+        except AnalysisError as ex:
+            # this scenario leaves the fragment the model can enumerate; a counter-example positively established by another
+            # scenario still counts, otherwise the run ends undecided (see the end of this function)
+            undecided = undecided or ex
+            sink.count("partition_paths")
+            sink.count("partition_scenarios")
+            continue
         if not paths:
             raise AnalysisError("MethodAnalysis.__init__ never reaches _create_basic_block in the model")
         sink.count("partition_paths", len(paths))
         label = "ops=(%s)" % ", ".join("0x%02x" % o for o in ops)
         if xt is not None:
             label += " tries=%d handler-sizes=%s try->handler=%s" % (xt[0], list(xt[1]), list(xt[2]))
+        if conc is not None:
+            label += " lengths=%s determineNext=%s" % (list(conc[0]), conc[1])
         seen = {}
         foreign_only = None
         for p in paths:
@@ -200,6 +222,8 @@ def check_partition(sink, repo, folder, ma_cls, dn, de, basic, scen):
             sink.check("partition", label, True, cbb, "", "",
                        detail="%d combinations of leader facts: block list == specification partition (starts, ends, counts, order)" % len(paths))
         sink.count("partition_scenarios")
+    if undecided is not None and not n_failed and not locals().get("n_failed_xt"):
+        raise undecided
     if pending and not n_failed and not locals().get("n_failed_xt"):
         raise AnalysisError("_create_basic_block decides block boundaries on a fact outside the model: %s" % (pending,))
 
@@ -233,7 +257,7 @@ def run(ctx):
     ctx.floor("payload_classes", 2)
     check_push(ctx, repo, folder, bb_cls)
     ctx.floor("push_scenarios", 3)
-    scen = QUICK_SCEN + XT_QUICK + (THOROUGH_EXTRA + XT_THOROUGH if ctx.tier == "thorough" else [])
+    scen = QUICK_SCEN + XT_QUICK + CONCRETE_SCEN + (THOROUGH_EXTRA + XT_THOROUGH if ctx.tier == "thorough" else [])
     ech = dx.classes.get("EncodedCatchHandler")
     ctx.analysed(de)
     for g in ("__init__", "get_size", "get_handlers", "get_catch_all_addr", "get_off"):
